@@ -187,6 +187,7 @@ structure Sys where
   runMutex : Option Tid := none
   threads : List Thr := []
   exitCode : Int := 0
+  exitCodeSet : Bool := false            -- `exitCodeOnce`
   wg : Nat := 0
   sdWg : Nat := 0
   depWg : List Nat := []                 -- by name (stopper's local wait group)
@@ -232,15 +233,19 @@ def setExit (s : Sys) (n : Name) (code : Int) : Sys :=
 def isRunningStatus (st : Status) : Bool :=
   st == .running || st == .launched || st == .launching
 
+/-- what `onProcessEnd` does to the instance record: the pending kill-timeout context is cancelled,
+    the probers are stopped, every wait latch is released (ready; log-ready as aborted unless the
+    line was seen; started/run context) and the instance is done -/
+def endInst (x : Inst) : Inst :=
+  { x with stopCtx := if x.stopCtx = .armed then .cancelled else x.stopCtx,
+           probeStopped := true, readyDone := true, runCancelled := true,
+           logReady := if x.logReady = .none then .aborted else x.logReady,
+           done := true }
+
 /-- `Process.onProcessEnd(state)` -/
 def onProcessEnd (s : Sys) (i : IId) (st : Status) : Sys :=
-  -- waitForStoppedFn: cancel the pending kill-timeout context, if any
-  let s := s.setInst i fun x => { x with stopCtx := if x.stopCtx = .armed then .cancelled else x.stopCtx,
-                                          probeStopped := true }
-  -- readiness context released only when a readiness prober exists
-  let s := if (s.icfg i).hasReadyProbe then s.setInst i fun x => { x with readyDone := true } else s
+  let s := s.setInst i endInst
   let s := setState s i st
-  let s := s.setInst i fun x => { x with done := true }
   s.emit (.done (s.nameOf i))
 
 /-- The fake command of instance `i` dies with `code` (pipes reach EOF). -/
@@ -337,15 +342,17 @@ def depStep (s : Sys) (t : Tid) (i : IId) (h : Hints) (rest : List (Name × Cond
 /-- leave the goroutine body: the deferred `wg.Done()` runs before `removeRunningProcess` -/
 def gotoCleanup (s : Sys) (t : Tid) : Sys := ({ s with wg := s.wg - 1 }).setPc t .lockCleanup
 
-/-- enter `stopProcess(i)`: `runCancelFn()` precedes the first scheduling point -/
+/-- enter `stopProcess(i)`: `runCancelFn()` (real stops only) precedes the first scheduling point -/
 def gotoStop (s : Sys) (t : Tid) (i : IId) (cr : Bool) (k : StopK) : Sys :=
-  (s.setInst i fun x => { x with runCancelled := true }).setPc t (.stopEnter i cr k)
+  -- an internal stop (failed readiness probe, `cr = false`) leaves the restart loop alive
+  (s.setInst i fun x => { x with runCancelled := x.runCancelled || cr }).setPc t (.stopEnter i cr k)
 
 /-- the launch block of `run()`: set state, start the command -/
 def doLaunch (s : Sys) (t : Tid) (i : IId) : Sys :=
   let s := setState s i .running
   if (s.icfg i).startFails then
     let s := s.emit (.launchfail (s.nameOf i))
+    let s := setExit s (s.nameOf i) 1
     let s := onProcessEnd s i .error
     s.setPc t (.procRan 1)
   else
@@ -367,6 +374,10 @@ def sdBody (s : Sys) (t : Tid) (h : Hints) (k : SdK) : Sys :=
   let s := order.foldl (fun s i => s.setInst i fun x => { x with isStopped := true }) s
   s.setPc t (.sdPrepared order k)
 
+/-- `exitCodeOnce.Do`: the first trigger decides the project exit code -/
+def recordExit (s : Sys) (code : Int) : Sys :=
+  if s.exitCodeSet then s else ({ s with exitCode := code, exitCodeSet := true }).emit (.projexit code)
+
 /-- after `ShutDownProject` returned -/
 def sdReturn (s : Sys) (t : Tid) (k : SdK) : Sys :=
   let s := { s with appCancelled := true, runMutex := none }
@@ -375,8 +386,8 @@ def sdReturn (s : Sys) (t : Tid) (k : SdK) : Sys :=
   | .api => match (s.thr t).kind with
     | .api id _ => (s.emit (.ret id "ok")).setPc t .finished
     | _ => s.setPc t .finished
-  | .procEnd code => gotoCleanup ({ s with exitCode := code }.emit (.projexit code)) t
-  | .procSkip => gotoCleanup ({ s with exitCode := 1 }.emit (.projexit 1)) t
+  | .procEnd _ => gotoCleanup s t
+  | .procSkip => gotoCleanup s t
 
 /-- unordered shutdown loop: stop the next process of `rest` or wait for the waiters -/
 def sdSeqNext (s : Sys) (t : Tid) (rest : List IId) (k : SdK) : Sys :=
@@ -443,146 +454,231 @@ def apiFirst (s : Sys) (t : Tid) (op : ApiOp) : Sys :=
     let s := (runOrder s).foldl spawnProc s
     s.setPc t .runWg
 
+/-! The thread programs, one definition per label ("arm"), so that each can be reasoned about on
+    its own; `stepThread` only dispatches. -/
+
+def armDepLookup (s : Sys) (t : Tid) (d : IId) (c : Cond) (rest : List (Name × Cond)) : Sys :=
+  match c with
+  | .completed => s.setPc t (.waitDone d false rest)
+  | .completedOk => s.setPc t (.waitDone d true rest)
+  | .healthy => s.setPc t (.waitReady d rest)
+  | .logReady => s.setPc t (.waitLogReady d rest)
+  | .started => s.setPc t (.waitStarted d rest)
+
+/-- woken from `waitForCompletion(d)`: a non-zero exit code under `process_completed_successfully` skips -/
+def armWaitDone (s : Sys) (t : Tid) (i d : IId) (ok : Bool) (rest : List (Name × Cond)) : Sys :=
+  if ok ∧ (s.ps (s.nameOf d)).exit ≠ 0 then doSkip s t i else s.setPc t (.depNext rest)
+
+def armWaitReady (s : Sys) (t : Tid) (i d : IId) (rest : List (Name × Cond)) : Sys :=
+  if (s.ps (s.nameOf d)).health = .ready then s.setPc t (.depNext rest) else doSkip s t i
+
+def armWaitLogReady (s : Sys) (t : Tid) (i d : IId) (rest : List (Name × Cond)) : Sys :=
+  if (s.inst d).logReady = .ok then s.setPc t (.depNext rest) else doSkip s t i
+
+def armProcSkipped (s : Sys) (t : Tid) (i : IId) : Sys :=
+  if (s.icfg i).exitOnSkipped then (recordExit s 1).setPc t (.sdEnter .procSkip) else gotoCleanup s t
+
+/-- `run()` entry: refuses to launch when already Terminating (and ends the process) -/
+def armRunEnter (s : Sys) (t : Tid) (i : IId) : Sys :=
+  if (s.ps (s.nameOf i)).status = .terminating then (onProcessEnd s i .completed).setPc t (.procRan 0)
+  else s.setPc t .runChecked
+
+def armRunChecked (s : Sys) (t : Tid) (i : IId) : Sys :=
+  if (s.icfg i).badDir then (onProcessEnd (setExit s (s.nameOf i) 1) i .error).setPc t (.procRan 1)
+  else
+    let s := (s.setInst i fun x => { x with started := true }).emit (.started (s.nameOf i))
+    doLaunch s t i
+
+def armCmdWait (s : Sys) (t : Tid) (i : IId) : Sys :=
+  match (s.inst i).cmd with
+  | .exited code => (setExit s (s.nameOf i) code).setPc t .runExited
+  | _ => s
+
+/-- after the exit: the restart decision -/
+def armRunExited (s : Sys) (t : Tid) (i : IId) : Sys :=
+  let (r, s) := decideRestart s i
+  if r then
+    let s := setState s i .restarting
+    let n := s.nameOf i
+    let s := s.setPs n fun p => { p with restarts := p.restarts + 1 }
+    (s.emit (.restarts n (s.ps n).restarts)).setPc t .backoff
+  else
+    let s := onProcessEnd s i .completed
+    s.setPc t (.procRan (s.ps (s.nameOf i)).exit)
+
+/-- woken from the back-off `select`: a cancelled run context ends the loop -/
+def armBackoff (s : Sys) (t : Tid) (i : IId) : Sys :=
+  if (s.inst i).runCancelled then
+    let s := onProcessEnd s i .completed
+    s.setPc t (.procRan (s.ps (s.nameOf i)).exit)
+  else s.setPc t .backoffElapsed
+
+def armProcRan (s : Sys) (t : Tid) (i : IId) (code : Int) : Sys :=
+  ({ s with doneM := s.doneM.set (s.nameOf i) (some i) }).setPc t (.procDoneAdded code)
+
+def armProcDoneAdded (s : Sys) (t : Tid) (i : IId) (code : Int) : Sys :=
+  let c := s.icfg i
+  if (code ≠ 0 ∧ c.policy = .exitOnFailure) ∨ c.exitOnEnd then (recordExit s code).setPc t (.sdEnter (.procEnd code))
+  else gotoCleanup s t
+
+/-- `removeRunningProcess`: delete by name, whoever is registered -/
+def armLockCleanup (s : Sys) (t : Tid) (i : IId) : Sys :=
+  ({ s with running := s.running.set (s.nameOf i) none }).setPc t .finished
+
+def stepProc (s : Sys) (t : Tid) (i : IId) (h : Hints) : Pc → Sys
+  | .begin => s.setPc t (.depNext (s.icfg i).deps)
+  | .depNext rest => depStep s t i h rest
+  | .lockDep k c rest => lookupRunning s t i k c rest
+  | .depLookup d c rest => armDepLookup s t d c rest
+  | .waitDone d ok rest => armWaitDone s t i d ok rest
+  | .waitReady d rest => armWaitReady s t i d rest
+  | .waitLogReady d rest => armWaitLogReady s t i d rest
+  | .waitStarted _ rest => s.setPc t (.depNext rest)
+  | .procSkipped => armProcSkipped s t i
+  | .runEnter => armRunEnter s t i
+  | .runChecked => armRunChecked s t i
+  | .cmdWait => armCmdWait s t i
+  | .runExited => armRunExited s t i
+  | .backoff => armBackoff s t i
+  | .backoffElapsed => doLaunch s t i
+  | .procRan code => armProcRan s t i code
+  | .procDoneAdded code => armProcDoneAdded s t i code
+  | .lockCleanup => armLockCleanup s t i
+  | _ => s
+
+/-! `stopProcess` -/
+
+def armStopEnter (s : Sys) (t : Tid) (i : IId) (cr : Bool) (k : StopK) : Sys :=
+  if isRunningStatus (s.ps (s.nameOf i)).status then s.setPc t (.stopChecked i cr k)
+  else s.setPc t (.stopNotRunning i k)
+
+/-- not running: a Pending process is marked so that `run()` refuses to launch it -/
+def armStopNotRunning (s : Sys) (t : Tid) (i : IId) (k : StopK) : Sys :=
+  let s := if (s.ps (s.nameOf i)).status = .pending then onProcessEnd s i .terminating else s
+  stopReturn s t k
+
+def armStopChecked (s : Sys) (t : Tid) (i : IId) (cr : Bool) (k : StopK) : Sys :=
+  (setState s i .terminating).setPc t (.stopMarked i cr k)
+
+/-- `stopProbes()` and, for a real stop, the release of the ready / log-ready waiters -/
+def stopMarkedPrep (s : Sys) (i : IId) (cr : Bool) : Sys :=
+  let hasProbe := (s.icfg i).hasReadyProbe
+  s.setInst i fun x =>
+    { x with probeStopped := true,
+             readyDone := x.readyDone || (cr && hasProbe),
+             logReady := if cr ∧ x.logReady = .none then .aborted else x.logReady }
+
+def armStopMarked (s : Sys) (t : Tid) (i : IId) (cr : Bool) (k : StopK) : Sys :=
+  let s := stopMarkedPrep s i cr
+  if (s.inst i).cmd = .none then
+    -- p.command is nil: nil-pointer dereference in the real code
+    ({ s with crashed := true }.emit (.crash "stop-without-command")).setPc t .finished
+  else
+    -- the configured signal is handed to the commander as is (the clamp is `CmdWrapper.Stop`'s, C06)
+    let s := cmdStop s i (s.icfg i).sdSignal
+    if (s.icfg i).sdTimeout ≠ 0 then
+      (s.setInst i fun x => { x with stopCtx := .armed }).setPc t (.stopWaitKill i k)
+    else stopReturn s t k
+
+def armStopWaitKill (s : Sys) (t : Tid) (i : IId) (k : StopK) : Sys :=
+  match (s.inst i).stopCtx with
+  | .timedOut => stopReturn (cmdStop s i 9) t k
+  | _ => stopReturn s t k
+
+/-! `ShutDownProject` -/
+
+def armSdEnter (s : Sys) (t : Tid) (h : Hints) (k : SdK) : Sys :=
+  if lockFree s t then sdBody { s with runMutex := some t } t h k else s.setPc t (.sdLock k)
+
+def armSdPrepared (s : Sys) (t : Tid) (order : List IId) (k : SdK) : Sys :=
+  if s.ordered then
+    let s := order.foldl (fun s i => ({ s with sdWg := s.sdWg + 1 }).spawn (.stopper i)) s
+    s.setPc t (.sdWg k)
+  else sdSeqNext s t order k
+
+/-! ordered-shutdown helpers -/
+
+def armStopperBegin (s : Sys) (t : Tid) (i : IId) : Sys :=
+  let deps := revDepsOf s (s.nameOf i)
+  let n := s.nameOf i
+  let s := deps.foldl (fun s j => ({ s with depWg := s.depWg.modify n (· + 1) }).spawn (.depwaiter i j)) s
+  s.setPc t (.depWg i)
+
+def stepStopper (s : Sys) (t : Tid) (i : IId) : Pc → Sys
+  | .begin => armStopperBegin s t i
+  | .depWg j => gotoStop s t j true (.stopper j)
+  | .waitDoneThen _ => ({ s with sdWg := s.sdWg - 1 }).setPc t .finished
+  | _ => s
+
+def stepWaiter (s : Sys) (t : Tid) (i : IId) : Pc → Sys
+  | .begin => s.setPc t (.waitDoneThen i)
+  | .waitDoneThen _ => ({ s with sdWg := s.sdWg - 1 }).setPc t .finished
+  | _ => s
+
+def stepDepwaiter (s : Sys) (t : Tid) (o i : IId) : Pc → Sys
+  | .begin => s.setPc t (.waitDoneThen i)
+  | .waitDoneThen _ => ({ s with depWg := s.depWg.modify (s.nameOf o) (· - 1) }).setPc t .finished
+  | _ => s
+
+/-! API threads -/
+
+def armApiBegin (s : Sys) (t : Tid) (op : ApiOp) : Sys :=
+  match op with
+  | .shutdown => s.setPc t (.sdEnter .api)
+  | _ => if lockFree s t then apiFirst s t op else s.setPc t (.apiLock op)
+
+def armSpawnOrLock (s : Sys) (t : Tid) (n : Name) : Sys :=
+  if n < s.cfgs.length then
+    if lockFree s t then apiSpawn s t n else s.setPc t (.lockSpawn n)
+  else apiRet s t "no-such"
+
+def stepApi (s : Sys) (t : Tid) (op : ApiOp) : Pc → Sys
+  | .begin => armApiBegin s t op
+  | .apiLock op' => apiFirst s t op'
+  | .startChecked n => armSpawnOrLock s t n
+  | .lockSpawn n => apiSpawn s t n
+  | .restartStopped n => s.setPc t (.restartSleep n)
+  | .restartSleep n => s.setPc t (.restartSlept n)
+  | .restartSlept n => armSpawnOrLock s t n
+  | .runWg => (s.emit (.runReturned s.exitCode)).setPc t .finished
+  | _ => s
+
+/-- fatal readiness callback (`onReadinessCheckEnd(_, true, _)`): Not Ready, then `internalStop` -/
+def armProbeBegin (s : Sys) (t : Tid) (n : Name) : Sys :=
+  match s.running.getD n none with
+  | none => s.setPc t .finished
+  | some i =>
+    if (s.inst i).probeStopped then s.setPc t .finished
+    else
+      let s := s.setPs n fun p => { p with health := .notReady }
+      gotoStop s t i false .probe
+
 /-- One fine-grained step of thread `t` (assumed enabled). -/
 def stepThread (s : Sys) (t : Tid) (h : Hints) : Sys :=
   let th := s.thr t
-  match th.kind, th.pc with
-  /- ---------- proc thread ---------- -/
-  | .proc i, .begin => s.setPc t (.depNext (s.icfg i).deps)
-  | .proc i, .depNext rest => depStep s t i h rest
-  | .proc i, .lockDep k c rest => lookupRunning s t i k c rest
-  | .proc i, .depLookup d c rest =>
-    match c with
-    | .completed => s.setPc t (.waitDone d false rest)
-    | .completedOk => s.setPc t (.waitDone d true rest)
-    | .healthy => s.setPc t (.waitReady d rest)
-    | .logReady => s.setPc t (.waitLogReady d rest)
-    | .started => s.setPc t (.waitStarted d rest)
-  | .proc i, .waitDone d ok rest =>
-    if ok ∧ (s.ps (s.nameOf d)).exit ≠ 0 then doSkip s t i else s.setPc t (.depNext rest)
-  | .proc i, .waitReady d rest =>
-    if (s.ps (s.nameOf d)).health = .ready then s.setPc t (.depNext rest)
-    else doSkip (setExit s (s.nameOf d) 1) t i
-  | .proc i, .waitLogReady d rest =>
-    if (s.inst d).logReady = .ok then s.setPc t (.depNext rest) else doSkip s t i
-  | .proc _, .waitStarted _ rest => s.setPc t (.depNext rest)
-  | .proc i, .procSkipped =>
-    if (s.icfg i).exitOnSkipped then s.setPc t (.sdEnter .procSkip) else gotoCleanup s t
-  | .proc i, .runEnter =>
-    if (s.ps (s.nameOf i)).status = .terminating then s.setPc t (.procRan 0) else s.setPc t .runChecked
-  | .proc i, .runChecked =>
-    if (s.icfg i).badDir then (onProcessEnd s i .error).setPc t (.procRan 1)
-    else
-      let s := (s.setInst i fun x => { x with started := true }).emit (.started (s.nameOf i))
-      doLaunch s t i
-  | .proc i, .cmdWait =>
-    match (s.inst i).cmd with
-    | .exited code => (setExit s (s.nameOf i) code).setPc t .runExited
-    | _ => s
-  | .proc i, .runExited =>
-    let (r, s) := decideRestart s i
-    if r then
-      let s := setState s i .restarting
-      let n := s.nameOf i
-      let s := s.setPs n fun p => { p with restarts := p.restarts + 1 }
-      (s.emit (.restarts n (s.ps n).restarts)).setPc t .backoff
-    else
-      let s := onProcessEnd s i .completed
-      s.setPc t (.procRan (s.ps (s.nameOf i)).exit)
-  | .proc i, .backoff =>
-    if (s.inst i).runCancelled then
-      let s := onProcessEnd s i .completed
-      s.setPc t (.procRan (s.ps (s.nameOf i)).exit)
-    else s.setPc t .backoffElapsed
-  | .proc i, .backoffElapsed => doLaunch s t i
-  | .proc i, .procRan code =>
-    ({ s with doneM := s.doneM.set (s.nameOf i) (some i) }).setPc t (.procDoneAdded code)
-  | .proc i, .procDoneAdded code =>
-    let c := s.icfg i
-    if (code ≠ 0 ∧ c.policy = .exitOnFailure) ∨ c.exitOnEnd then s.setPc t (.sdEnter (.procEnd code))
-    else gotoCleanup s t
-  | .proc i, .lockCleanup =>
-    -- removeRunningProcess: delete by name, whoever is registered
-    ({ s with running := s.running.set (s.nameOf i) none }).setPc t .finished
-  /- ---------- stopProcess ---------- -/
-  | _, .stopEnter i cr k =>
-    if isRunningStatus (s.ps (s.nameOf i)).status then s.setPc t (.stopChecked i cr k)
-    else s.setPc t (.stopNotRunning i k)
-  | _, .stopNotRunning i k =>
-    let s := if (s.ps (s.nameOf i)).status = .pending then onProcessEnd s i .terminating else s
-    stopReturn s t k
-  | _, .stopChecked i cr k => (setState s i .terminating).setPc t (.stopMarked i cr k)
-  | _, .stopMarked i cr k =>
-    let s := s.setInst i fun x => { x with probeStopped := true }
-    let s := if cr then
-        let s := if (s.icfg i).hasReadyProbe then s.setInst i fun x => { x with readyDone := true } else s
-        s.setInst i fun x => { x with logReady := if x.logReady = .none then .aborted else x.logReady }
-      else s
-    if (s.inst i).cmd = .none then
-      -- p.command is nil: nil-pointer dereference in the real code
-      ({ s with crashed := true }.emit (.crash "stop-without-command")).setPc t .finished
-    else
-      -- the configured signal is handed to the commander as is (the clamp is `CmdWrapper.Stop`'s, C06)
-      let s := cmdStop s i (s.icfg i).sdSignal
-      if (s.icfg i).sdTimeout ≠ 0 then
-        (s.setInst i fun x => { x with stopCtx := .armed }).setPc t (.stopWaitKill i k)
-      else stopReturn s t k
-  | _, .stopWaitKill i k =>
-    match (s.inst i).stopCtx with
-    | .timedOut => stopReturn (cmdStop s i 9) t k
-    | _ => stopReturn s t k
-  /- ---------- ShutDownProject ---------- -/
-  | _, .sdEnter k =>
-    if lockFree s t then sdBody { s with runMutex := some t } t h k else s.setPc t (.sdLock k)
-  | _, .sdLock k => sdBody { s with runMutex := some t } t h k
-  | _, .sdPrepared order k =>
-    if s.ordered then
-      let s := order.foldl (fun s i => ({ s with sdWg := s.sdWg + 1 }).spawn (.stopper i)) s
-      s.setPc t (.sdWg k)
-    else sdSeqNext s t order k
-  | _, .sdWg k => sdReturn s t k
-  /- ---------- ordered shutdown helpers ---------- -/
-  | .stopper i, .begin =>
-    let deps := revDepsOf s (s.nameOf i)
-    let n := s.nameOf i
-    let s := deps.foldl (fun s j => ({ s with depWg := s.depWg.modify n (· + 1) }).spawn (.depwaiter i j)) s
-    s.setPc t (.depWg i)
-  | .stopper _, .depWg i => gotoStop s t i true (.stopper i)
-  | .stopper _, .waitDoneThen _ => ({ s with sdWg := s.sdWg - 1 }).setPc t .finished
-  | .waiter i, .begin => s.setPc t (.waitDoneThen i)
-  | .waiter _, .waitDoneThen _ => ({ s with sdWg := s.sdWg - 1 }).setPc t .finished
-  | .depwaiter _ i, .begin => s.setPc t (.waitDoneThen i)
-  | .depwaiter o _, .waitDoneThen _ =>
-    ({ s with depWg := s.depWg.modify (s.nameOf o) (· - 1) }).setPc t .finished
-  /- ---------- API threads ---------- -/
-  | .api _ op, .begin =>
-    match op with
-    | .shutdown => s.setPc t (.sdEnter .api)
-    | _ => if lockFree s t then apiFirst s t op else s.setPc t (.apiLock op)
-  | .api _ _, .apiLock op => apiFirst s t op
-  | .api _ _, .startChecked n =>
-    if n < s.cfgs.length then
-      if lockFree s t then apiSpawn s t n else s.setPc t (.lockSpawn n)
-    else apiRet s t "no-such"
-  | .api _ _, .lockSpawn n => apiSpawn s t n
-  | .api _ _, .restartStopped n => s.setPc t (.restartSleep n)
-  | .api _ _, .restartSleep n => s.setPc t (.restartSlept n)
-  | .api _ _, .restartSlept n =>
-    if n < s.cfgs.length then
-      if lockFree s t then apiSpawn s t n else s.setPc t (.lockSpawn n)
-    else apiRet s t "no-such"
-  | .api _ _, .runWg => (s.emit (.runReturned s.exitCode)).setPc t .finished
-  /- ---------- probe callback thread (fatal readiness result) ---------- -/
-  | .probe _ n, .begin =>
-    match s.running.getD n none with
-    | none => s.setPc t .finished
-    | some i =>
-      if (s.inst i).probeStopped then s.setPc t .finished
-      else
-        let s := s.setPs n fun p => { p with health := .notReady }
-        gotoStop s t i false .probe
-  | .pstart i, .begin => (s.setInst i fun x => { x with probeStopped := false }).setPc t .finished
-  | _, _ => s
+  match th.pc with
+  | .stopEnter i cr k => armStopEnter s t i cr k
+  | .stopNotRunning i k => armStopNotRunning s t i k
+  | .stopChecked i cr k => armStopChecked s t i cr k
+  | .stopMarked i cr k => armStopMarked s t i cr k
+  | .stopWaitKill i k => armStopWaitKill s t i k
+  | .sdEnter k => armSdEnter s t h k
+  | .sdLock k => sdBody { s with runMutex := some t } t h k
+  | .sdPrepared order k => armSdPrepared s t order k
+  | .sdWg k => sdReturn s t k
+  | pc =>
+    match th.kind with
+    | .proc i => stepProc s t i h pc
+    | .api _ op => stepApi s t op pc
+    | .stopper i => stepStopper s t i pc
+    | .waiter i => stepWaiter s t i pc
+    | .depwaiter o i => stepDepwaiter s t o i pc
+    | .probe _ n => match pc with
+      | .begin => armProbeBegin s t n
+      | _ => s
+    | .pstart i => match pc with
+      | .begin => (s.setInst i fun x => { x with probeStopped := false }).setPc t .finished
+      | _ => s
 
 /-- Is the label a pure yield point (passed through in coarse granularity)? -/
 def Pc.isYield : Pc → Bool
